@@ -467,6 +467,7 @@ type FuncSpec struct {
 	Pkg      string   // package path where declared
 	File     string
 	Allocates bool
+	View      string // non-empty: secondary contract (see viewfunc)
 	AliasOf   string // funcfield only: the function value is always the closure with this package-relative name; its contract applies
 	Ghosts   []GhostUpd // ghost updates applied at return (ensures-level)
 }
@@ -635,7 +636,7 @@ func parseExprList(s string) ([]Expr, error) {
 var clauseKeywords = map[string]bool{"requires": true, "ensures": true, "modifies": true, "panics": true, "pure": true,
 	"decreases": true, "hint": true, "loop": true, "at": true, "params": true, "nopanic": true, "maypanic": true, "allocates": true, "ghost": true}
 var itemKeywords = map[string]bool{"const": true, "spec": true, "lemma": true, "inv": true, "ghost": true, "iface": true,
-	"funcfield": true, "func": true, "trusted": true, "package": true, "opaque": true}
+	"funcfield": true, "func": true, "viewfunc": true, "trusted": true, "package": true, "opaque": true}
 
 // logicalLines joins continuation lines: a line that does not start with a
 // keyword continues the previous one.
@@ -774,6 +775,18 @@ func ParseContractFile(path string, pkgPath string) (*ContractFile, error) {
 			}
 			cf.Invs = append(cf.Invs, &InvDef{Type: hf[0], Name: hf[1][:i], Var: strings.TrimSuffix(hf[1][i+1:], ")"), Body: b, Pkg: cf.Pkg})
 			cur, curLemma = nil, nil
+			continue
+		case "viewfunc":
+			// viewfunc <view> <function>: a second contract of a function that callers use through its primary
+			// (typically trusted, model-level) contract; it is what the function's own body is verified against in a
+			// claim that names the view
+			f2 := strings.SplitN(rest, " ", 2)
+			if len(f2) != 2 {
+				return nil, fail(l, fmt.Errorf("viewfunc <view> <function>"))
+			}
+			cur = &FuncSpec{Name: strings.TrimSpace(f2[1]), Kind: "func", Loops: map[int]*LoopSpec{}, Pkg: cf.Pkg, File: path, View: f2[0]}
+			cf.Funcs = append(cf.Funcs, cur)
+			curLemma = nil
 			continue
 		case "func", "iface", "funcfield":
 			alias := ""
